@@ -37,3 +37,16 @@ def rmatch_dump(i, pos, text):
     if not m:
         return 'OK None'
     return 'OK %d' % (m.end() - pos)
+
+
+def tok_str(tt, v):
+    return ttype_str(tt) + ':' + (','.join(str(ord(c)) for c in v))
+
+
+def splitstream_dump(text):
+    """Statements as the splitter yields them (before grouping)."""
+    try:
+        stmts = list(StatementSplitter().process(lexer.tokenize(text)))
+    except Exception as e:  # noqa
+        return 'ERR ' + exn_name(e)
+    return 'OK ' + '||'.join('|'.join(tok_str(t.ttype, t.value) for t in st.tokens) for st in stmts)
